@@ -128,6 +128,10 @@ def run_check(prop, tier, seed, replay=None, jobs=None, quiet=False):
     known = core.known_open(prop)
     lines, unknown, known_hit = [], [], []
     os.makedirs(os.path.join(VERIF, 'replays'), exist_ok=True)
+    if not replay:
+        for fn in os.listdir(os.path.join(VERIF, 'replays')):
+            if fn.startswith(prop + '-') and os.environ.get('VT_REPO') is None:
+                os.remove(os.path.join(VERIF, 'replays', fn))
     for key in sorted(merged['violations']):
         v = merged['violations'][key]
         if key in known:
